@@ -98,9 +98,80 @@ func canonTree(v any) string {
 	return sb.String()
 }
 
-// normValue renders a value with nil slices, maps and []byte written as empty ones (nil ~ empty).
-func normValue(d *TDesc, v reflect.Value) string {
-	return normTokens(valueString(d, v))
+// normValue renders a value with nil slices, maps and []byte written as empty ones (nil ~ empty) and
+// with an embedded pointer to a struct that contributes no member written as a nil one: the encoders
+// write the same for both (since /repo 272431d a nil embedded pointer contributes no member instead
+// of panicking), and Recompose allocates an embedded pointer only for a member that goes through it
+// (/repo b19f06c).
+func normValue(d *TDesc, v reflect.Value, useTags bool) string {
+	var sb strings.Builder
+	valueTokensX(&sb, d, v, func(sd *TDesc, sv reflect.Value) bool { return noMember(sd, sv, useTags) })
+	return normTokens(strings.TrimSpace(sb.String()))
+}
+
+// noMember: the struct value is written without any member. Only tags can do that (the C16 cases set
+// neither OmitNil nor OmitEmpty): without UseTags every exported field is written; with UseTags a
+// field tagged "-" is dropped and one tagged omitempty is dropped when empty. An embedded struct
+// contributes its fields, an embedded pointer those of its target unless nil.
+func noMember(d *TDesc, v reflect.Value, useTags bool) bool {
+	if d.Kind != "struct" {
+		return false
+	}
+	for i, f := range d.Fields {
+		if !exported(f.Name) {
+			continue
+		}
+		fv := v.Field(i)
+		if f.Embedded && f.Tag == "" {
+			switch {
+			case f.Type.Kind == "struct":
+				if !noMember(f.Type, fv, useTags) {
+					return false
+				}
+				continue
+			case f.Type.Kind == "ptr" && f.Type.Elem.Kind == "struct":
+				if !fv.IsNil() && !noMember(f.Type.Elem, fv.Elem(), useTags) {
+					return false
+				}
+				continue
+			}
+		}
+		if !useTags {
+			return false
+		}
+		if f.Tag == "-" {
+			continue
+		}
+		omit := false
+		for k, part := range strings.Split(f.Tag, ",") {
+			if k > 0 && part == "omitempty" {
+				omit = true
+			}
+		}
+		if !omit || !emptyForOmit(fv) {
+			return false
+		}
+	}
+	return true
+}
+
+// emptyForOmit is the emptiness the omitempty tag tests (false, 0, "", nil, length 0; a struct never).
+func emptyForOmit(v reflect.Value) bool {
+	switch v.Kind() {
+	case reflect.Bool:
+		return !v.Bool()
+	case reflect.Int, reflect.Int8, reflect.Int16, reflect.Int32, reflect.Int64:
+		return v.Int() == 0
+	case reflect.Uint, reflect.Uint8, reflect.Uint16, reflect.Uint32, reflect.Uint64:
+		return v.Uint() == 0
+	case reflect.Float32, reflect.Float64:
+		return v.Float() == 0
+	case reflect.String, reflect.Slice, reflect.Map, reflect.Array:
+		return v.Len() == 0
+	case reflect.Ptr, reflect.Interface:
+		return v.IsNil()
+	}
+	return false
 }
 
 // newRecomposer builds the recomposer of a case and plays the history on it.
@@ -180,7 +251,7 @@ func (c *c16Case) run(t any, withHist bool) (exact, norm string) {
 	if err != nil {
 		return "error", "error"
 	}
-	return valueString(c.d, tgt.Elem()), normValue(c.d, tgt.Elem())
+	return valueString(c.d, tgt.Elem()), normValue(c.d, tgt.Elem(), c.spec.UseTags)
 }
 
 // ---- predicates that name the known deviations -------------------------------------------------
@@ -327,8 +398,10 @@ func facts(d *TDesc, v reflect.Value, inElem bool, f *valFacts) {
 	}
 }
 
-// knownReasons names the known deviations this case meets (why the round trip is not expected to
-// give the value back); empty when it is expected to.
+// knownReasons names the deviations this case meets (why the round trip is not expected to give the
+// value back); empty when it is expected to. The ids that are listed as FIXED (embedded pointer,
+// nil pointer/interface element, lookup by bare name: /repo b19f06c, 4344ad7, f1da31f, 6d5fecb) are
+// named only when no live one explains the failure — and then the finding is a violation.
 func (c *c16Case) knownReasons() []string {
 	f := valFacts{ck: c.createKey()}
 	facts(c.d, c.v, false, &f)
@@ -336,13 +409,20 @@ func (c *c16Case) knownReasons() []string {
 	if f.ifaceCK {
 		out = append(out, "C16-createkey-member")
 	}
-	if f.embPtr {
-		out = append(out, "C16-embedded-pointer")
-	}
 	collision := c.nameCollision(false)
 	if collision && (f.ifaceStruct || f.ifaceCK) {
 		// create-key NAMES in the data are resolved by bare name (by design unless FullTypePath)
 		out = append(out, "C16-createkey-bare-name")
+	}
+	if f.bytes && (c.route == "marshal" || c.spec.BytesAs != ojg.BytesAsArray) {
+		// (the Marshal route writes numbers as long as C15-bytes-as-slice stands, and then round-trips)
+		out = append(out, "C16-bytes-text")
+	}
+	if len(out) > 0 {
+		return out
+	}
+	if f.embPtr {
+		out = append(out, "C16-embedded-pointer")
 	}
 	if f.nilPtrElem {
 		out = append(out, "C16-nil-pointer-element")
@@ -350,20 +430,14 @@ func (c *c16Case) knownReasons() []string {
 	if f.nilIfaceElem {
 		out = append(out, "C16-nil-interface-element")
 	}
-	if f.bytes && (c.route == "marshal" || c.spec.BytesAs != ojg.BytesAsArray) {
-		// (the Marshal route writes numbers as long as C15-bytes-as-slice stands, and then round-trips)
-		out = append(out, "C16-bytes-text")
-	}
 	if len(out) == 0 && collision {
-		// the lookup of a struct's own composer by bare name: repaired by /repo 6d5fecb and listed as
-		// fixed — named here only when nothing else explains the failure, and then it is a violation
 		out = append(out, "C16-registry-bare-name")
 	}
 	return out
 }
 
-// embPtrInUniverse: some struct type the recomposer meets (history included) embeds a pointer, so a
-// registration panics half way and leaves the registry partly filled.
+// embPtrInUniverse: some struct type the recomposer meets (history included) embeds a pointer; before
+// /repo b19f06c a registration then panicked half way and left the registry partly filled.
 func (c *c16Case) embPtrInUniverse() bool {
 	seen := map[reflect.Type]*TDesc{}
 	structTypes(c.d, seen)
@@ -458,7 +532,7 @@ func checkC16(d *lib.Driver, c *c16Case) error {
 	rep.AddEval(1, 1)
 	rep.Count("route."+c.route, 1)
 	rep.Count(fmt.Sprintf("history.len=%d", len(c.hist)), 1)
-	want := normValue(c.d, c.v)
+	want := normValue(c.d, c.v, c.spec.UseTags)
 	if terr != "" {
 		// the encoder failed: C15's business (nil embedded pointer, tight nil pointer); nothing to recompose
 		rep.Count("encode_failed", 1)
@@ -535,16 +609,19 @@ func checkC16(d *lib.Driver, c *c16Case) error {
 	if len(c.hist) > 0 {
 		if normH != norm0 {
 			var reasons []string
-			if c.embPtrInUniverse() {
-				reasons = append(reasons, "C16-embedded-pointer")
-			}
 			if fc.ifaceCK {
 				reasons = append(reasons, "C16-createkey-member")
 			}
-			if c.nameCollision(true) {
-				if dataDriven {
-					reasons = append(reasons, "C16-createkey-bare-name")
-				} else if d == nil || len(reasons) > 0 || model[2] == "outside" || model[3] == "outside" || model[2] == model[3] {
+			collision := c.nameCollision(true)
+			if collision && dataDriven {
+				reasons = append(reasons, "C16-createkey-bare-name")
+			}
+			if len(reasons) == 0 {
+				// ids listed as fixed: named only when nothing live explains it, and then a violation
+				if c.embPtrInUniverse() {
+					reasons = append(reasons, "C16-embedded-pointer")
+				}
+				if collision && (d == nil || len(reasons) > 0 || model[2] == "outside" || model[3] == "outside" || model[2] == model[3]) {
 					reasons = append(reasons, "C16-registry-bare-name")
 				}
 			}
